@@ -75,6 +75,19 @@ impl<D, E> Reader<D, E> {
     }
 }
 
+impl<D, E> Drop for Reader<D, E> {
+    /// The receiver is gone (e.g. the client disconnected): release anything still queued and
+    /// make the writer's next flush fail, rather than letting it queue chunks forever.
+    fn drop(&mut self) {
+        let _old_state;
+        if let Ok(mut l) = self.shared.lock() {
+            _old_state = std::mem::replace(&mut l.state, SharedState::ReaderFused);
+            l.waker = None;
+        }
+        // `_old_state` (queue or error) is dropped here, after the lock is released.
+    }
+}
+
 impl<D, E> futures_core::Stream for Reader<D, E>
 where
     D: From<Vec<u8>>,
